@@ -29,7 +29,7 @@ func init() {
 	vlib.Register(&vlib.Prop{
 		ID:    "C20",
 		Level: "exploration",
-		Cases: func(tier string) int { return vlib.TierN(tier, 500, 10000) },
+		Cases: func(tier string) int { return vlib.TierN(tier, 500, 100000) },
 		Rule: "case idx%8 in 0..3: publisher stack (depth 0..3 drawn from transform / delay.Publisher / metrics decorator of one builder, the metrics decorator " +
 			"possibly twice) around a scripted publisher; 3..8 Publish calls with fresh batches of 0..4 messages mixing pre-set delay metadata (delay.Message), " +
 			"context delays (For/Until: -1h, 0, +10y, small) and none, PublisherConfig {generator absent/present/failing} x AllowNoDelay, scripted inner errors; " +
